@@ -402,7 +402,11 @@ def gen_malformed(rng, tol):
                 same = [i for i in idx if i != a and rows[i][0] == rows[a][0]]
                 if same:
                     b = int(rng.choice(same))
-            rows[b] = list(rows[a])
+            if rng.random() < 0.5:
+                rows[b] = list(rows[a])
+            else:
+                # a typo in the flight-level / mass columns only: the duplicated cell keeps its own speed, climb rate and fuel flow
+                rows[b] = [rows[a][0], rows[a][1]] + list(rows[b][2:])
         elif why == 'two-masses':
             ms = ref.allM
             drop = float(rng.choice(ms))
